@@ -79,7 +79,7 @@ Definition chr_zero : N := 48.
 
 (* format(n, '0<w>d') / f'{n:0<w>}' for n >= 0 *)
 Definition fmt0 (w : nat) (n : N) : str :=
-  if n <? 10 ^ N.of_nat w then map dch (digs w n)
+  if (n <? 10 ^ N.of_nat w) && (0 <? N.of_nat w) then map dch (digs w n)
   else map dch (dec_digits n).
 Definition str_of_N (n : N) : str := map dch (dec_digits n).
 
